@@ -1,7 +1,7 @@
 #!/bin/bash
 # seedr2.sh Cxx <demo dest> "<needs>" : confirm a round-2 seeded change and run the property's quick check against it
 id=$1
-SEED_ROUND=2 python3 /verif/scripts/seedconfirm.py "$id" "$2" "$3" 2>&1 | tail -4
-[ -d /verif/seeded/$id-r2 ] || exit 1
-/verif/scripts/seedrun.sh $id-r2 quick | grep -v KNOWN-FINDING | head -3
+SEED_ROUND=${SEED_ROUND:-2} python3 /verif/scripts/seedconfirm.py "$id" "$2" "$3" 2>&1 | tail -4
+[ -d /verif/seeded/$id-r${SEED_ROUND:-2} ] || exit 1
+/verif/scripts/seedrun.sh $id-r${SEED_ROUND:-2} quick | grep -v KNOWN-FINDING | head -3
 rm -f /verif/replays/found/$id-*.json
